@@ -14,7 +14,30 @@ pub fn corpus_grammar() -> BoxedStrategy<GrammarSpec> {
     (0..all.len()).prop_map(move |i| all[i].clone()).boxed()
 }
 
-/// Mix of every generator that exists; weights: regex 4, cfg 4, json 4, corpus 2.
+/// Line-oriented Lark grammars: comments, "rest of the line" terminals, long bounded runs of a wide character class.
+/// Their lexeme states contain whole token slices (`[^"\\...]{1,10}`, `{1,30}`, `+` of the default list) but not the
+/// whitespace slice, which is the situation the slicer's "remainder" tries exist for.  Relational checks only.
+pub fn line_grammar() -> BoxedStrategy<GrammarSpec> {
+    let class = prop_oneof![3 => Just("[^\\n]"), 2 => Just("."), 1 => Just("[^\\n\\r]"), 1 => Just("[^\";]"), 1 => Just("[^<]"), 1 => Just("(?s:.)")];
+    let rep = prop_oneof![3 => Just("*".to_string()), 1 => Just("+".to_string()), 2 => (0u32..3, 10u32..45).prop_map(|(a, b)| format!("{{{},{}}}", a, b))];
+    let term = prop_oneof![3 => Just("\\n"), 1 => Just(";"), 1 => Just("\\r\\n"), 1 => Just("")];
+    let shape = 0u8..6;
+    (class, rep, term, shape).prop_map(|(cl, rep, term, shape)| {
+        let line = format!("/{}{}{}/", cl, rep, term);
+        let txt = match shape {
+            0 => format!("start: LINE\nLINE: {}\n", line),
+            1 => format!("start: LINE+\nLINE: {}\n", line),
+            2 => format!("start: (COMMENT | stmt)*\nCOMMENT: /#{}{}{}/\nstmt: /[a-z]+/ \"=\" /[0-9]+/ \";\"\n", cl, rep, term),
+            3 => format!("start: \"//\" REST \"!\" /[0-9]/\nREST: {}\n", line),
+            4 => format!("start: (KEY \":\" VALUE)+\nKEY: /[a-c]+/\nVALUE: {}\n%ignore /[ \\t]+/\n", line),
+            _ => format!("start: \"\\\"\" BODY \"\\\"\"\nBODY: /[^\"]{}/\n", rep),
+        };
+        GrammarSpec::Lark(txt)
+    })
+    .boxed()
+}
+
+/// Mix of every generator that exists; weights: regex 4, cfg 5, json 4, corpus 2, line-oriented 1.
 pub fn any_grammar() -> BoxedStrategy<GrammarSpec> {
     prop_oneof![
         4 => regex_grammar(RxOpts { depth: 3, max_weight: 60, ..RxOpts::default() }),
@@ -22,6 +45,7 @@ pub fn any_grammar() -> BoxedStrategy<GrammarSpec> {
         2 => crate::cfg::cfg_with_ignore(),
         4 => crate::js::schema_grammar(crate::js::Profile::All),
         2 => corpus_grammar(),
+        1 => line_grammar(),
     ]
     .boxed()
 }
